@@ -165,6 +165,7 @@ Inductive shape :=
 | CommutingWrites | Singleton | NoEffect
 | InspectedHarmless           (* allow-listed after inspection, translate/c09/allowlist.json *)
 | KnownSensitive              (* allow-listed as a recorded finding *)
+| CollectDerivedSort           (* collected elements are not the keys themselves, or sorted through a comparator *)
 | OrderSensitiveAppend | StringConcat | LastWriteWins | MultiKeyMatch | FirstMatchAmbiguous
 | DerivedKeyWrite | Unknown.
 
